@@ -25,23 +25,33 @@ CHECKS = {
          "While a modifier is certainly absorbed: (a) no observed firing of a mapping requiring it from another trigger, (b) it is not down at non-modifier presses, (c) immediate re-press of the trigger refires, (d) an unabsorbed modifier counts. The stacked-absorption corner is an open known finding."),
  "C09": ("model_checking", "A", "6-C09", "explicit-state BFS over the real Mapper::step; reference repeat instruction as transition predicate",
          "Every step's repeat instruction (Repeating exactly the fired Special mapping's parameters / Disabled / NoChange with no events for ignored events) in every reachable state."),
+ "C10": ("model_checking", "B", "4, 6-C10", "stateless DFS (prefix replay) over all delivery schedules of the real per-device loop under a scripted driver",
+         "Every history over a small key alphabet up to the length bound, every way of batching it into arrivals under edge-triggered readiness, late arrivals between reads, spurious time-outs and interruptions up to the deviation bound, end-of-device at every point: the writes equal a fresh real mapper's non-empty step outputs, each written at once; no poll while notified events are unread; no call after End."),
+ "C11": ("model_checking", "B", "4.2, 6-C11, 7.7", "stateless DFS over delivery schedules and time-out placements with a virtual clock owned by the environment",
+         "Every placement of on-time and late time-outs between events: poll time-outs never reach beyond the next due time, a chord is written exactly in reaction to a time-out at/after the due time anchored at the firing (no drift), its payload leaves held keys alone and the held set unchanged, nothing is written at other times."),
+ "C12": ("model_checking", "B", "4.2, 6-C12, 7.6", "stateless DFS over delivery schedules including tablet-switch events on a second device",
+         "Every placement of On/Off events (repeated, Off first, sharing a wake-up with keyboard events in both orders, while chords or timers are live): held keys released at once, nothing written until Off, fresh start after Off."),
+ "C20": ("fault_enumeration", "B", "6-C20", "exhaustive fault injection: every driver call of every explored execution fails in turn",
+         "For every execution of the schedule set and every k: the k-th driver call returns an error; the loop must return that error and make no further driver call."),
  "C19": ("model_checking", "A", "6-C19", "explicit-state BFS over the real Mapper::step; fold of the emitted stream",
          "Within every step's event list and every release_all batch, from every reachable state: press only of an up key, release only of a down key."),
 }
 
 PENDING = {
- "C10": "check under construction (Engine B, event loop schedules)",
- "C11": "check under construction (Engine B, virtual clock)",
- "C12": "check under construction (Engine B, tablet events)",
+ #"C10": "check under construction (Engine B, event loop schedules)",
+ #"C11": "check under construction (Engine B, virtual clock)",
+ #"C12": "check under construction (Engine B, tablet events)",
  "C13": "check under construction (Engine C, reference expander)",
  "C14": "check under construction (Engine C + A)",
  "C15": "check under construction (Engine C)",
  "C16": "check under construction (Engine C)",
  "C17": "check under construction (Engine C, reference systemd reader)",
  "C18": "check under construction (Engine C, pipe + libc::input_event)",
- "C20": "check under construction (Engine B, fault enumeration)",
+ #"C20": "check under construction (Engine B, fault enumeration)",
 }
-NOTES = {}
+B_NOTE = ("Trusted: the environment model (edge-triggered readiness, non-blocking reads, poll faithful to its timeout), the virtual clock seam (the engine fails as machinery if the loop arms a timer without reading it), "
+          "a separate fresh real Mapper as the reference for what each read event must produce. Bounds: history length, deviation count and time-out count per family (in the evidence).")
+NOTES = {"C10": B_NOTE, "C11": B_NOTE, "C12": B_NOTE, "C20": B_NOTE}
 
 def repo_hook_commits():
     out = subprocess.run(["git", "-C", "/repo", "log", "--format=%H %s"], capture_output=True, text=True).stdout
